@@ -584,6 +584,33 @@ func (c *ctx) arith(op token.Token, x, y *T, t types.Type, ovf *[]overflowCheck)
 		}
 		return r
 	}
+	// constant folding and identities (int mode)
+	xv, xok := numeralValue(x)
+	yv, yok := numeralValue(y)
+	if xok && yok && (op == token.ADD || op == token.SUB || op == token.MUL) {
+		var r *big.Int
+		switch op {
+		case token.ADD:
+			r = new(big.Int).Add(xv, yv)
+		case token.SUB:
+			r = new(big.Int).Sub(xv, yv)
+		case token.MUL:
+			r = new(big.Int).Mul(xv, yv)
+		}
+		return res(c.intConstBig(r, 64))
+	}
+	if yok && yv.Sign() == 0 && (op == token.ADD || op == token.SUB) {
+		return x
+	}
+	if xok && xv.Sign() == 0 && op == token.ADD {
+		return y
+	}
+	if yok && yv.Cmp(big.NewInt(1)) == 0 && op == token.MUL {
+		return x
+	}
+	if xok && xv.Cmp(big.NewInt(1)) == 0 && op == token.MUL {
+		return y
+	}
 	switch op {
 	case token.ADD:
 		return res(app("+", "Int", x, y))
@@ -767,6 +794,34 @@ func (c *ctx) shift(op token.Token, x, y *T, tx, ty types.Type) *T {
 }
 
 func (c *ctx) cmp(op token.Token, x, y *T, t types.Type) *T {
+	if !c.bv {
+		if xv, ok := numeralValue(x); ok {
+			if yv, ok2 := numeralValue(y); ok2 {
+				if _, _, isInt := intInfo(t); isInt {
+					k := xv.Cmp(yv)
+					var r bool
+					switch op {
+					case token.EQL:
+						r = k == 0
+					case token.NEQ:
+						r = k != 0
+					case token.LSS:
+						r = k < 0
+					case token.LEQ:
+						r = k <= 0
+					case token.GTR:
+						r = k > 0
+					case token.GEQ:
+						r = k >= 0
+					}
+					if r {
+						return tTrue
+					}
+					return tFalse
+				}
+			}
+		}
+	}
 	if w, ok := isFloat(t); ok {
 		x, y = fpOf(x, w), fpOf(y, w)
 		switch op {
